@@ -4,6 +4,7 @@ package props
 
 import (
 	"bytes"
+	"encoding/binary"
 	"fmt"
 	"strconv"
 	"strings"
@@ -82,6 +83,7 @@ type c02Case struct {
 	exTTL    bool
 	expire   string // none past future
 	exValue  *gen.Value
+	expireAt uint64 // the source key's absolute expiry in ms (what the file says)
 	// configuration
 	keyExists      string
 	targetVersion  string
@@ -180,6 +182,45 @@ func drawC02(t *rapid.T) *c02Case {
 			e.Freq = uint8(rapid.IntRange(1, 255).Draw(t, "freqv"))
 		}
 	}
+	if rapid.IntRange(0, 3).Draw(t, "viaParser") == 0 {
+		// let the real parser produce the entry from a one-key file (second- or millisecond-resolution expiry opcode)
+		b := []byte("REDIS0009")
+		b = append(b, gen.OpSelectDB)
+		b = gen.AppendLen(b, uint64(e.DB), 0)
+		if e.ExpireAt != 0 {
+			if rapid.Bool().Draw(t, "expireSeconds") {
+				e.ExpireAt = e.ExpireAt / 1000 * 1000
+				if e.ExpireAt/1000 > 0xffffffff {
+					e.ExpireAt = 0xffffffff * 1000
+				}
+				b = append(b, gen.OpExpire)
+				b = binary.LittleEndian.AppendUint32(b, uint32(e.ExpireAt/1000))
+			} else {
+				b = append(b, gen.OpExpireMs)
+				b = binary.LittleEndian.AppendUint64(b, e.ExpireAt)
+			}
+		}
+		if e.IdleTime != 0 {
+			b = append(b, gen.OpIdle)
+			b = gen.AppendLen(b, uint64(e.IdleTime), 0)
+		}
+		if e.Freq != 0 {
+			b = append(b, gen.OpFreq, e.Freq)
+		}
+		b = append(b, c.enc.Type)
+		b = gen.AppendRawString(b, e.Key)
+		b = append(b, c.enc.Bytes...)
+		b = append(b, gen.OpEOF)
+		entries, err, res := loadAll(bytes.NewReader(appendCRC(b)))
+		if err != nil || !res.Completed || len(entries) != 1 {
+			t.Fatalf("harness: parser failed on a one-key file: %v %v", err, res)
+		}
+		c.expireAt = e.ExpireAt
+		e = entries[0]
+		c.labels["via-parser"] = true
+	} else {
+		c.expireAt = e.ExpireAt
+	}
 	c.entry = e
 	// configuration (post-conditions of the sanitiser)
 	c.given = rapid.IntRange(0, 2).Draw(t, "versionGiven") == 0
@@ -238,6 +279,9 @@ func c02Run(t *rapid.T) { c02Check(t, drawC02(t)) }
 func c02Check(t fataler, c *c02Case) {
 	defer resetC02Conf()
 	c.apply()
+	if c.expireAt == 0 {
+		c.expireAt = c.entry.ExpireAt
+	}
 	major, _ := strconv.Atoi(strings.Split(c.tk.version, ".")[0])
 	if c.v == nil && major < 5 {
 		stats.C.Exclude("stream entry to a target older than 5.0 (cannot be represented there)")
@@ -383,7 +427,7 @@ func c02Check(t fataler, c *c02Case) {
 				return
 			}
 		case "future":
-			lo, hi := int64(c.entry.ExpireAt)-after, int64(c.entry.ExpireAt)-before
+			lo, hi := int64(c.expireAt)-after, int64(c.expireAt)-before
 			if !got.HasTTL || got.TTLGiven < lo || got.TTLGiven > hi {
 				violation(t, "C02", c02Sig(c, route, "ttl"), "%s: target ttl %v/%d ms, want within [%d,%d]\ncommands: %v", desc, got.HasTTL, got.TTLGiven, lo, hi, log)
 				return
